@@ -929,8 +929,14 @@ func Execute(s *Scenario, dir string) (res *Result) {
 			if len(an.Live()) == 0 {
 				// the honest peer stays reachable; the service re-dials on its own timers
 				if !x.waitFor(func() bool { return len(an.Live()) > 0 }, 75*time.Second) {
-					res.Verdict, res.What = "inconclusive", "the service has no connection to the honest node and did not re-dial it within 75 s"
+					res.Verdict, res.What = "inconclusive", fmt.Sprintf("the service has no connection to the honest node and did not re-dial it within 75 s (dial attempts so far: %d, refused on the node's behalf: %d)", x.rig.DialCount(), an.RefusedDials())
 					res.Events = x.rig.Log.Tail(40)
+					if os.Getenv("VERIF_SCN_ALWAYSLOG") != "" {
+						res.Events = x.rig.Log.Tail(100000)
+						var sb strings.Builder
+						_ = pprof.Lookup("goroutine").WriteTo(&sb, 1)
+						res.Panic = sb.String()
+					}
 					return
 				}
 				x.count("waited_for_honest_connection", 1)
